@@ -21,6 +21,9 @@ pub struct Case {
     /// the input split over 1..3 files
     pub files: Vec<Vec<String>>,
     pub joined_lines: Vec<String>,
+    /// long input: every file's lines are repeated this many times and only the listed LIMIT values (as per-mille of the row count, plus offsets) are tried
+    #[serde(default)]
+    pub long: Option<(usize, Vec<u64>)>,
 }
 
 pub struct C07;
@@ -33,7 +36,7 @@ impl Property for C07 {
     }
 
     fn rule(&self) -> String {
-        "a statement without LIMIT (plain, DISTINCT, join with fan-out, aggregate +- GROUP BY) x input of <= 16 lines split over 1-3 files, including rows whose projected columns are all NULL; \
+        "a statement without LIMIT (plain, DISTINCT, join with fan-out, aggregate +- GROUP BY) x input of <= 16 lines split over 1-3 files, including rows whose projected columns are all NULL (one case in 30: every file repeated to 600-6000 lines in total, about a dozen LIMIT values spread over the row count); \
          for EVERY n in 0..=rows+2 the statement with LIMIT n is run. Oracle (metamorphic): records(LIMIT n) = first n records of the unlimited run; a non-aggregate statement consumes exactly the lines up to \
          the one that produced its n-th row (0 lines for n = 0, all lines when there are fewer rows; attribution by feeding the unlimited statement line by line through the engine); an aggregate \
          statement consumes everything and keeps the first n groups. Non-trivial: some 0 < n < rows with >= 2 files or a fan-out line or a NULL-only row; distinct by case."
@@ -46,7 +49,7 @@ impl Property for C07 {
 
     fn cases(&self, tier: Tier) -> u64 {
         match tier {
-            Tier::Quick => 20_000,
+            Tier::Quick => 60_000,
             Tier::Thorough => 600_000,
         }
     }
@@ -82,15 +85,31 @@ impl Property for C07 {
             }
             files[f].push(l);
         }
-        Case { table: g.table, joined: g.joined, query: g.query, files, joined_lines }
+        let total: usize = files.iter().map(|f| f.len()).sum();
+        let long = if total >= 3 && t.chance(1, 30) {
+            // thousands of rows: 600-6000 lines, eight LIMIT values spread over the row count
+            let repeat = (600 + t.draw(5400)) / total + 1;
+            let points: Vec<u64> = (0..8).map(|_| t.draw(1001) as u64).collect();
+            Some((repeat, points))
+        } else {
+            None
+        };
+        Case { table: g.table, joined: g.joined, query: g.query, files, joined_lines, long }
     }
 
     fn check(&self, case: &Case, ctx: &Ctx, obs: &mut Obs) -> Result<(), Failure> {
         let unlimited = prepare(ctx, &case.table, case.joined.as_ref(), &case.query, &case.joined_lines, "c07")?;
-        let contents: Vec<Vec<u8>> = case.files.iter().map(|f| lines_to_bytes(f)).collect();
+        let expanded: Vec<Vec<String>> = match &case.long {
+            Some((repeat, _)) => {
+                obs.label("long-input");
+                case.files.iter().map(|f| (0..*repeat).flat_map(|_| f.iter().cloned()).collect()).collect()
+            }
+            None => case.files.clone(),
+        };
+        let contents: Vec<Vec<u8>> = expanded.iter().map(|f| lines_to_bytes(f)).collect();
         let files = scratch_files(ctx, "c07", &contents);
-        let all_lines: Vec<&String> = case.files.iter().flatten().collect();
-        let context = format!("query (without LIMIT): {}\n  tables: {}\n  files: {:?}\n  joined lines: {:?}", unlimited.text, unlimited.defs, case.files, case.joined_lines);
+        let all_lines: Vec<&String> = expanded.iter().flatten().collect();
+        let context = format!("query (without LIMIT): {}\n  tables: {}\n  files: {:?} (each repeated {} time(s))\n  joined lines: {:?}", unlimited.text, unlimited.defs, case.files, case.long.as_ref().map(|l| l.0).unwrap_or(1), case.joined_lines);
         let panic_fail = |p: String| Failure::new(format!("panic: {}", crate::run::panic_class(&p)), format!("panicked: {}\n  {}", p, context));
 
         let u = run_batch(&unlimited.tables, &unlimited.statement, &files, RunOptions::default()).map_err(panic_fail)?;
@@ -151,7 +170,18 @@ impl Property for C07 {
         obs.nontrivial = urec.len() >= 2 && (multi || fan_out || null_only);
 
         let kind = if aggregate { "aggregate" } else if fan_out { "fan-out" } else if null_only { "null-only-row" } else if multi { "multi-file" } else { "plain" };
-        for n in 0..=(urec.len() as u64 + 2) {
+        let limits: Vec<u64> = match &case.long {
+            Some((_, points)) => {
+                let rows = urec.len() as u64;
+                let mut v: Vec<u64> = points.iter().map(|p| rows * p / 1000).collect();
+                v.extend([rows.saturating_sub(1), rows, rows + 1, 1025.min(rows), 4097.min(rows)]);
+                v.sort();
+                v.dedup();
+                v
+            }
+            None => (0..=(urec.len() as u64 + 2)).collect(),
+        };
+        for n in limits {
             if n == 0 && ctx.excluded("c07_limit_zero") {
                 obs.excluded += 1;
                 continue;
